@@ -3,7 +3,7 @@
    context cancellation and goroutine exit are primitives of the model. *)
 From FunV Require Import Base.Tac Base.ListX Model.Pipelines
   Proofs.Pipelines_conserve Proofs.Pipelines_quiesce Proofs.Pipelines_nets Proofs.Pipelines_complete Proofs.Pipelines_closer
-  Proofs.Pipelines_nodrop Proofs.Pipelines_shared.
+  Proofs.Pipelines_release Proofs.Pipelines_nodrop Proofs.Pipelines_shared Proofs.Pipelines_completeness.
 
 (* every step of every network permutes
    remaining input ++ items in goroutines' hands ++ channel buffers ++ delivered ++ dropped *)
@@ -145,3 +145,23 @@ Theorem C01_next_value_hand_off_refuted :
             sh_src s = [] /\ sh_out s = [(0, 2%Z); (1, 2%Z)].
 Proof. exact next_value_loses_and_duplicates. Qed.
 Print Assumptions C01_next_value_hand_off_refuted.
+
+(* C01_no_abort_no_drop, generic: in ANY network that respects the hand discipline, as long as no context is
+   cancelled and no channel is closed no step drops anything *)
+Theorem C01_no_abort_no_drop :
+  forall N s l s',
+    hinv N s -> s_canc s = [] -> (forall ch, closedb s ch = false) -> step N s l = Some s' -> s_drop s' = s_drop s.
+Proof. exact no_cancel_no_close_no_drop. Qed.
+Print Assumptions C01_no_abort_no_drop.
+
+(* C01_complete, in full, for GenerateParallel (any n >= 1 workers, any input, any interleaving; generator
+   ending with the end-of-stream signal): a terminated run that nothing aborted delivered a permutation of
+   what the generator produced. This is C01_complete_statement at K = KGenerate n GEof.
+   (n = 0 workers and a generator that ends with a failure are excluded for a reason: with no worker nothing
+   is read, and a failure aborts the run - C01_generate_failure_drops_in_flight.) *)
+Theorem C01_complete_generate :
+  forall n input s,
+    0 < n -> reach (gen_net n GEof) (gen_init n input) s -> s_stopped s = false -> all_done s ->
+    Permutation (s_deliv s) input.
+Proof. exact gen_eof_complete. Qed.
+Print Assumptions C01_complete_generate.
